@@ -583,11 +583,11 @@ func init() {
 		Title: "Sanitized parameters are injection-safe for the library's own parser",
 		Rule: "rapid draws (shape mode) a template from a grammar - select items `$n AS v`, `-$n`/`5 - $n`/`($n)` adjacency, WHERE with =, IN lists, " +
 			"BETWEEN, LIKE, 1-4 placeholders each used >=1 time with repeats - with decoys that must be left alone: `$n` inside '..' (with '' \\' \\\\ " +
-			"inside), \"..\", backtick identifiers, /* */, `-- `, `#` and `//` comments; arguments: strings over a quote-hostile alphabet (' \\ \" ` -- /* # NUL " +
+			"inside), \"..\", backtick identifiers, block comments of every spelling (/* */, /*x*/, /*/ */, /*// */, /** **/, bodies containing / // -- # /* and stars), `-- `, `#` and `//` comments; arguments: strings over a quote-hostile alphabet (' \\ \" ` -- /* # NUL " +
 			"newline Ctrl-Z multi-byte runes SQL keywords `$1`), int64 incl. extremes, finite float64 incl. tiny/huge, bool, nil. Oracle: the library " +
-			"parser's canonical form of SanitizeSQL(T,args) equals that of T with each placeholder replaced by the harness's own MySQL-correct literal. " +
+			"parser's canonical form of SanitizeSQL(T,args) equals that of T with each placeholder replaced by the harness's own MySQL-correct literal (numeric literals compared by value, comments ignored), and every comment the library's tokenizer finds in the sanitized text is, verbatim and in order, a comment of the template. " +
 			"Echo mode: `SELECT $1 AS v FROM dual` (or two arguments, under PostgresEscapingDialect / IdiomaticArrays in half of those) executed through New/Exec returns exactly the argument(s). Err mode: missing argument, unused " +
-			"argument, `$0` -> error, no panic. Non-trivial: a string argument containing ' \\ \" ` -- /* # NUL or a multi-byte rune, or a decoy present, or err mode.",
+			"argument (anywhere in the list, incl. a gap of the placeholder numbering), `$0` -> error, no panic. Non-trivial: a string argument containing ' \\ \" ` -- /* # NUL or a multi-byte rune, or a decoy present, or err mode.",
 		Assumptions: []string{
 			"arguments are valid UTF-8 strings, int64, finite float64, bool or nil (the types the statement lists)",
 			"placeholders are separated from neighbouring tokens by an operator, comma, parenthesis or white space; comments contain no backslash or carriage return",
